@@ -186,6 +186,8 @@ XKPairsMenu == << << <<2, 3, -50>>, <<3, 2, 25>> >>, << <<2, 3, 20>> >>, << <<2,
 XKChars     == {65, 66, 102, 105}
 XKFlagMenuQ == << Fl(TRUE, FALSE, FALSE, FALSE), Fl(TRUE, TRUE, FALSE, FALSE), Fl(TRUE, FALSE, FALSE, TRUE),
                   Fl(TRUE, TRUE, FALSE, TRUE), Fl(FALSE, FALSE, FALSE, FALSE) >>
+XKFlagMenuT == << Fl(TRUE, FALSE, FALSE, FALSE), Fl(TRUE, TRUE, FALSE, FALSE), Fl(TRUE, FALSE, FALSE, TRUE),
+                  Fl(TRUE, TRUE, FALSE, TRUE), Fl(TRUE, FALSE, TRUE, FALSE) >>
 XKPairsMenuQ == << << <<2, 3, -50>>, <<3, 2, 25>> >>, << <<2, 3, 20>>, <<6, 7, -9>> >> >>
 XKCharsQ    == {65, 66, 102}
 XKCmapMenu  == <<XCm1>>
